@@ -621,4 +621,541 @@ theorem fwd_opTypes (xs : List OpTypeDef) (hok : ∀ x ∈ xs, isOperationType x
     (fun x hx a0 σ1 hst _ => fwd_opTypeDef x (hok x hx) a0 σ1 hst)
     (fun x _ => ⟨_, _, rfl, by simp [tName]⟩) (fun _ _ => trivial) n a σ' hs habs
 
+/-! ### type definitions and extensions -/
+
+theorem firstKind_block {α : Type} (f : α → List Tok) (xs : List α) (k : Kind) :
+    firstKind (printBlock f xs) k = if xs = [] then k else .braceL := by
+  cases xs <;> simp [printBlock, tP]
+
+theorem firstKind_members (ts : List Name) (k : Kind) : firstKind (printMembers ts) k = if ts = [] then k else .equals := by
+  cases ts <;> simp [printMembers, tP]
+
+/-- what may not follow a top-level item (what does follow is a description, a keyword or EOF) -/
+def FolItem (σ : Stream) : Prop :=
+  σ.head.kind ≠ .at ∧ σ.head.kind ≠ .parenL ∧ σ.head.kind ≠ .braceL ∧ σ.head.kind ≠ .amp ∧ σ.head.kind ≠ .equals ∧
+    σ.head.kind ≠ .pipe ∧ σ.head.kind ≠ .bang ∧ NoImplements σ
+
+theorem noImplements_of_kind {σ : Stream} (h : σ.head.kind ≠ .name) : NoImplements σ := fun hh => h hh.1
+
+/-- the parts of a definition that its kind does not print are empty, the others are printable -/
+def DefOK (d : Definition) : Prop :=
+  CDirs d.dirs ∧
+  match d.kind with
+  | .scalar => d.interfaces = [] ∧ d.fields = [] ∧ d.types = [] ∧ d.enumValues = []
+  | .object => d.types = [] ∧ d.enumValues = [] ∧ ∀ f ∈ d.fields, FieldDefOK f
+  | .interface => d.types = [] ∧ d.enumValues = [] ∧ ∀ f ∈ d.fields, FieldDefOK f
+  | .union => d.interfaces = [] ∧ d.fields = [] ∧ d.enumValues = []
+  | .enum => d.interfaces = [] ∧ d.fields = [] ∧ d.types = [] ∧ ∀ e ∈ d.enumValues, EnumValOK e
+  | .inputObject => d.interfaces = [] ∧ d.types = [] ∧ d.enumValues = [] ∧ ∀ f ∈ d.fields, InputFieldOK f
+
+theorem length_of_map_eq {α β : Type} {f : α → β} {xs ys : List α} (h : xs.map f = ys.map f) : xs.length = ys.length := by
+  have := congrArg List.length h; simpa using this
+
+theorem fwd_parseScalarTypeDefinition {dk : Kind} (hdk : DescKind dk) (d : Definition) (hk : d.kind = .scalar) (hok : DefOK d)
+    (n : Nat) (a : AS) (σ' : Stream) (hs : Starts a.σ (DefKind.keyword d.kind :: printDefBodyK dk d) σ') (hfol : FolItem σ') :
+    Fwd (parseScalarTypeDefinition n d.desc) a (fun y a' => y.erasePos = ({ d with builtIn := false } : Definition).erasePos ∧ a'.σ = σ') := by
+  obtain ⟨g1, g2, g3, g4, g5, g6, g7, g8⟩ := hfol
+  obtain ⟨hcd, hparts⟩ := hok
+  simp only [hk] at hparts
+  have hs : Starts a.σ ([tKw "scalar"] ++ ([tName d.name] ++ printDirectives d.dirs)) σ' := by
+    simpa [printDefBodyK, hk, DefKind.keyword] using hs
+  rw [Starts.append_iff] at hs
+  obtain ⟨σ1, h1, hs⟩ := hs
+  rw [Starts.append_iff] at hs
+  obtain ⟨σ2, h2, h4⟩ := hs
+  unfold parseScalarTypeDefinition
+  refine Fwd.bind (fwd_keyword "scalar" (by simpa using h1)) ?_
+  rintro _ b1 hσb1
+  refine Fwd.bind (fwd_peekPos _) ?_
+  rintro pos b2 rfl
+  refine Fwd.bind (fwd_parseName d.name (by simpa [hσb1] using h2)) ?_
+  rintro nm b3 ⟨rfl, hσb3⟩
+  refine Fwd.bind (fwd_directives true d.dirs hcd.1 (fun _ => hcd.2) n b3 σ' (by rw [hσb3]; exact h4) g1 g2) ?_
+  rintro ds' b5 ⟨hds, hσ⟩
+  refine (Fwd.pure _ _).mono ?_
+  rintro y b7 ⟨rfl, rfl⟩
+  exact ⟨by simp [Definition.erasePos, hds, hk, hparts.1, hparts.2.1, hparts.2.2.1, hparts.2.2.2], hσ⟩
+
+theorem fwd_parseObjectTypeDefinition {dk : Kind} (hdk : DescKind dk) (d : Definition) (hk : d.kind = .object) (hok : DefOK d)
+    (n : Nat) (a : AS) (σ' : Stream) (hs : Starts a.σ (DefKind.keyword d.kind :: printDefBodyK dk d) σ') (hfol : FolItem σ') :
+    Fwd (parseObjectTypeDefinition n d.desc) a (fun y a' => y.erasePos = ({ d with builtIn := false } : Definition).erasePos ∧ a'.σ = σ') := by
+  obtain ⟨g1, g2, g3, g4, g5, g6, g7, g8⟩ := hfol
+  obtain ⟨hcd, hparts⟩ := hok
+  simp only [hk] at hparts
+  have hs : Starts a.σ ([tKw "type"] ++ ([tName d.name] ++ (printImplements d.interfaces ++ (printDirectives d.dirs ++
+      printBlock (printFieldDefK dk) d.fields)))) σ' := by simpa [printDefBodyK, hk, DefKind.keyword] using hs
+  rw [Starts.append_iff] at hs
+  obtain ⟨σ1, h1, hs⟩ := hs
+  rw [Starts.append_iff] at hs
+  obtain ⟨σ2, h2, hs⟩ := hs
+  rw [Starts.append_iff] at hs
+  obtain ⟨σ3, h3, hs⟩ := hs
+  rw [Starts.append_iff] at hs
+  obtain ⟨σ4, h4, h5⟩ := hs
+  have k5 := h5.firstKind
+  rw [firstKind_block] at k5
+  have k4 := h4.firstKind
+  rw [firstKind_directives] at k4
+  have hσ4 : σ4.head.kind ≠ .at ∧ σ4.head.kind ≠ .parenL ∧ σ4.head.kind ≠ .amp ∧ NoImplements σ4 := by
+    rw [k5]; split
+    · exact ⟨g1, g2, g4, by
+        have : σ4 = σ' := by
+          rename_i hnil; rw [hnil] at h5; simpa [printBlock, Starts.nil_iff] using h5
+        rw [this]; exact g8⟩
+    · exact ⟨by decide, by decide, by decide, noImplements_of_kind (by rw [k5]; simp [*])⟩
+  have hσ3 : σ3.head.kind ≠ .amp ∧ NoImplements σ3 := by
+    by_cases hd : d.dirs = []
+    · have : σ3 = σ4 := by rw [hd] at h4; simpa [printDirectives, Starts.nil_iff] using h4
+      rw [this]; exact ⟨hσ4.2.2.1, hσ4.2.2.2⟩
+    · rw [if_neg hd] at k4
+      exact ⟨by rw [k4]; decide, noImplements_of_kind (by rw [k4]; decide)⟩
+  unfold parseObjectTypeDefinition
+  refine Fwd.bind (fwd_keyword "type" (by simpa using h1)) ?_
+  rintro _ b1 hσb1
+  refine Fwd.bind (fwd_peekPos _) ?_
+  rintro pos b2 rfl
+  refine Fwd.bind (fwd_parseName d.name (by simpa [hσb1] using h2)) ?_
+  rintro nm b3 ⟨rfl, hσb3⟩
+  refine Fwd.bind (fwd_implements d.interfaces n b3 σ3 (by rw [hσb3]; exact h3) hσ3.1 (fun _ => hσ3.2)) ?_
+  rintro ifs b4 ⟨rfl, hσb4⟩
+  refine Fwd.bind (fwd_directives true d.dirs hcd.1 (fun _ => hcd.2) n b4 σ4 (by rw [hσb4]; exact h4) hσ4.1 hσ4.2.1) ?_
+  rintro ds' b5 ⟨hds, hσb5⟩
+  refine Fwd.bind (fwd_fieldDefs hdk d.fields hparts.2.2 n b5 σ' (by rw [hσb5]; exact h5) (fun _ => g3)) ?_
+  rintro fs' b6 ⟨hfs, hσ⟩
+  refine (Fwd.pure _ _).mono ?_
+  rintro y b7 ⟨rfl, rfl⟩
+  exact ⟨by simp [Definition.erasePos, hds, hfs, hk, hparts.1, hparts.2.1], hσ⟩
+
+theorem fwd_parseInterfaceTypeDefinition {dk : Kind} (hdk : DescKind dk) (d : Definition) (hk : d.kind = .interface) (hok : DefOK d)
+    (n : Nat) (a : AS) (σ' : Stream) (hs : Starts a.σ (DefKind.keyword d.kind :: printDefBodyK dk d) σ') (hfol : FolItem σ') :
+    Fwd (parseInterfaceTypeDefinition n d.desc) a (fun y a' => y.erasePos = ({ d with builtIn := false } : Definition).erasePos ∧ a'.σ = σ') := by
+  obtain ⟨g1, g2, g3, g4, g5, g6, g7, g8⟩ := hfol
+  obtain ⟨hcd, hparts⟩ := hok
+  simp only [hk] at hparts
+  have hs : Starts a.σ ([tKw "interface"] ++ ([tName d.name] ++ (printImplements d.interfaces ++ (printDirectives d.dirs ++
+      printBlock (printFieldDefK dk) d.fields)))) σ' := by simpa [printDefBodyK, hk, DefKind.keyword] using hs
+  rw [Starts.append_iff] at hs
+  obtain ⟨σ1, h1, hs⟩ := hs
+  rw [Starts.append_iff] at hs
+  obtain ⟨σ2, h2, hs⟩ := hs
+  rw [Starts.append_iff] at hs
+  obtain ⟨σ3, h3, hs⟩ := hs
+  rw [Starts.append_iff] at hs
+  obtain ⟨σ4, h4, h5⟩ := hs
+  have k5 := h5.firstKind
+  rw [firstKind_block] at k5
+  have k4 := h4.firstKind
+  rw [firstKind_directives] at k4
+  have hσ4 : σ4.head.kind ≠ .at ∧ σ4.head.kind ≠ .parenL ∧ σ4.head.kind ≠ .amp ∧ NoImplements σ4 := by
+    rw [k5]; split
+    · exact ⟨g1, g2, g4, by
+        have : σ4 = σ' := by
+          rename_i hnil; rw [hnil] at h5; simpa [printBlock, Starts.nil_iff] using h5
+        rw [this]; exact g8⟩
+    · exact ⟨by decide, by decide, by decide, noImplements_of_kind (by rw [k5]; simp [*])⟩
+  have hσ3 : σ3.head.kind ≠ .amp ∧ NoImplements σ3 := by
+    by_cases hd : d.dirs = []
+    · have : σ3 = σ4 := by rw [hd] at h4; simpa [printDirectives, Starts.nil_iff] using h4
+      rw [this]; exact ⟨hσ4.2.2.1, hσ4.2.2.2⟩
+    · rw [if_neg hd] at k4
+      exact ⟨by rw [k4]; decide, noImplements_of_kind (by rw [k4]; decide)⟩
+  unfold parseInterfaceTypeDefinition
+  refine Fwd.bind (fwd_keyword "interface" (by simpa using h1)) ?_
+  rintro _ b1 hσb1
+  refine Fwd.bind (fwd_peekPos _) ?_
+  rintro pos b2 rfl
+  refine Fwd.bind (fwd_parseName d.name (by simpa [hσb1] using h2)) ?_
+  rintro nm b3 ⟨rfl, hσb3⟩
+  refine Fwd.bind (fwd_implements d.interfaces n b3 σ3 (by rw [hσb3]; exact h3) hσ3.1 (fun _ => hσ3.2)) ?_
+  rintro ifs b4 ⟨rfl, hσb4⟩
+  refine Fwd.bind (fwd_directives true d.dirs hcd.1 (fun _ => hcd.2) n b4 σ4 (by rw [hσb4]; exact h4) hσ4.1 hσ4.2.1) ?_
+  rintro ds' b5 ⟨hds, hσb5⟩
+  refine Fwd.bind (fwd_fieldDefs hdk d.fields hparts.2.2 n b5 σ' (by rw [hσb5]; exact h5) (fun _ => g3)) ?_
+  rintro fs' b6 ⟨hfs, hσ⟩
+  refine (Fwd.pure _ _).mono ?_
+  rintro y b7 ⟨rfl, rfl⟩
+  exact ⟨by simp [Definition.erasePos, hds, hfs, hk, hparts.1, hparts.2.1], hσ⟩
+
+theorem fwd_parseUnionTypeDefinition {dk : Kind} (hdk : DescKind dk) (d : Definition) (hk : d.kind = .union) (hok : DefOK d)
+    (n : Nat) (a : AS) (σ' : Stream) (hs : Starts a.σ (DefKind.keyword d.kind :: printDefBodyK dk d) σ') (hfol : FolItem σ') :
+    Fwd (parseUnionTypeDefinition n d.desc) a (fun y a' => y.erasePos = ({ d with builtIn := false } : Definition).erasePos ∧ a'.σ = σ') := by
+  obtain ⟨g1, g2, g3, g4, g5, g6, g7, g8⟩ := hfol
+  obtain ⟨hcd, hparts⟩ := hok
+  simp only [hk] at hparts
+  have hs : Starts a.σ ([tKw "union"] ++ ([tName d.name] ++ (printDirectives d.dirs ++ printMembers d.types))) σ' := by
+    simpa [printDefBodyK, hk, DefKind.keyword] using hs
+  rw [Starts.append_iff] at hs
+  obtain ⟨σ1, h1, hs⟩ := hs
+  rw [Starts.append_iff] at hs
+  obtain ⟨σ2, h2, hs⟩ := hs
+  rw [Starts.append_iff] at hs
+  obtain ⟨σ4, h4, h5⟩ := hs
+  have k5 := h5.firstKind
+  rw [firstKind_members] at k5
+  have hσ4 : σ4.head.kind ≠ .at ∧ σ4.head.kind ≠ .parenL := by
+    rw [k5]; split
+    · exact ⟨g1, g2⟩
+    · exact ⟨by decide, by decide⟩
+  unfold parseUnionTypeDefinition
+  refine Fwd.bind (fwd_keyword "union" (by simpa using h1)) ?_
+  rintro _ b1 hσb1
+  refine Fwd.bind (fwd_peekPos _) ?_
+  rintro pos b2 rfl
+  refine Fwd.bind (fwd_parseName d.name (by simpa [hσb1] using h2)) ?_
+  rintro nm b3 ⟨rfl, hσb3⟩
+  refine Fwd.bind (fwd_directives true d.dirs hcd.1 (fun _ => hcd.2) n b3 σ4 (by rw [hσb3]; exact h4) hσ4.1 hσ4.2) ?_
+  rintro ds' b5 ⟨hds, hσb5⟩
+  refine Fwd.bind (fwd_unionMembers d.types n b5 σ' (by rw [hσb5]; exact h5) g6 (fun _ => g5)) ?_
+  rintro fs' b6 ⟨hfs, hσ⟩
+  refine (Fwd.pure _ _).mono ?_
+  rintro y b7 ⟨rfl, rfl⟩
+  exact ⟨by simp [Definition.erasePos, hds, hfs, hk, hparts.1, hparts.2.1, hparts.2.2], hσ⟩
+
+theorem fwd_parseEnumTypeDefinition {dk : Kind} (hdk : DescKind dk) (d : Definition) (hk : d.kind = .enum) (hok : DefOK d)
+    (n : Nat) (a : AS) (σ' : Stream) (hs : Starts a.σ (DefKind.keyword d.kind :: printDefBodyK dk d) σ') (hfol : FolItem σ') :
+    Fwd (parseEnumTypeDefinition n d.desc) a (fun y a' => y.erasePos = ({ d with builtIn := false } : Definition).erasePos ∧ a'.σ = σ') := by
+  obtain ⟨g1, g2, g3, g4, g5, g6, g7, g8⟩ := hfol
+  obtain ⟨hcd, hparts⟩ := hok
+  simp only [hk] at hparts
+  have hs : Starts a.σ ([tKw "enum"] ++ ([tName d.name] ++ (printDirectives d.dirs ++ printBlock (printEnumValK dk) d.enumValues))) σ' := by
+    simpa [printDefBodyK, hk, DefKind.keyword] using hs
+  rw [Starts.append_iff] at hs
+  obtain ⟨σ1, h1, hs⟩ := hs
+  rw [Starts.append_iff] at hs
+  obtain ⟨σ2, h2, hs⟩ := hs
+  rw [Starts.append_iff] at hs
+  obtain ⟨σ4, h4, h5⟩ := hs
+  have k5 := h5.firstKind
+  rw [firstKind_block] at k5
+  have hσ4 : σ4.head.kind ≠ .at ∧ σ4.head.kind ≠ .parenL := by
+    rw [k5]; split
+    · exact ⟨g1, g2⟩
+    · exact ⟨by decide, by decide⟩
+  unfold parseEnumTypeDefinition
+  refine Fwd.bind (fwd_keyword "enum" (by simpa using h1)) ?_
+  rintro _ b1 hσb1
+  refine Fwd.bind (fwd_peekPos _) ?_
+  rintro pos b2 rfl
+  refine Fwd.bind (fwd_parseName d.name (by simpa [hσb1] using h2)) ?_
+  rintro nm b3 ⟨rfl, hσb3⟩
+  refine Fwd.bind (fwd_directives true d.dirs hcd.1 (fun _ => hcd.2) n b3 σ4 (by rw [hσb3]; exact h4) hσ4.1 hσ4.2) ?_
+  rintro ds' b5 ⟨hds, hσb5⟩
+  refine Fwd.bind (fwd_enumVals hdk d.enumValues hparts.2.2.2 n b5 σ' (by rw [hσb5]; exact h5) (fun _ => g3)) ?_
+  rintro fs' b6 ⟨hfs, hσ⟩
+  refine (Fwd.pure _ _).mono ?_
+  rintro y b7 ⟨rfl, rfl⟩
+  exact ⟨by simp [Definition.erasePos, hds, hfs, hk, hparts.1, hparts.2.1, hparts.2.2.1], hσ⟩
+
+theorem fwd_parseInputObjectTypeDefinition {dk : Kind} (hdk : DescKind dk) (d : Definition) (hk : d.kind = .inputObject) (hok : DefOK d)
+    (n : Nat) (a : AS) (σ' : Stream) (hs : Starts a.σ (DefKind.keyword d.kind :: printDefBodyK dk d) σ') (hfol : FolItem σ') :
+    Fwd (parseInputObjectTypeDefinition n d.desc) a (fun y a' => y.erasePos = ({ d with builtIn := false } : Definition).erasePos ∧ a'.σ = σ') := by
+  obtain ⟨g1, g2, g3, g4, g5, g6, g7, g8⟩ := hfol
+  obtain ⟨hcd, hparts⟩ := hok
+  simp only [hk] at hparts
+  have hs : Starts a.σ ([tKw "input"] ++ ([tName d.name] ++ (printDirectives d.dirs ++ printBlock (printInputFieldK dk) d.fields))) σ' := by
+    simpa [printDefBodyK, hk, DefKind.keyword] using hs
+  rw [Starts.append_iff] at hs
+  obtain ⟨σ1, h1, hs⟩ := hs
+  rw [Starts.append_iff] at hs
+  obtain ⟨σ2, h2, hs⟩ := hs
+  rw [Starts.append_iff] at hs
+  obtain ⟨σ4, h4, h5⟩ := hs
+  have k5 := h5.firstKind
+  rw [firstKind_block] at k5
+  have hσ4 : σ4.head.kind ≠ .at ∧ σ4.head.kind ≠ .parenL := by
+    rw [k5]; split
+    · exact ⟨g1, g2⟩
+    · exact ⟨by decide, by decide⟩
+  unfold parseInputObjectTypeDefinition
+  refine Fwd.bind (fwd_keyword "input" (by simpa using h1)) ?_
+  rintro _ b1 hσb1
+  refine Fwd.bind (fwd_peekPos _) ?_
+  rintro pos b2 rfl
+  refine Fwd.bind (fwd_parseName d.name (by simpa [hσb1] using h2)) ?_
+  rintro nm b3 ⟨rfl, hσb3⟩
+  refine Fwd.bind (fwd_directives true d.dirs hcd.1 (fun _ => hcd.2) n b3 σ4 (by rw [hσb3]; exact h4) hσ4.1 hσ4.2) ?_
+  rintro ds' b5 ⟨hds, hσb5⟩
+  refine Fwd.bind (fwd_inputFields hdk d.fields hparts.2.2.2 n b5 σ' (by rw [hσb5]; exact h5) (fun _ => g3)) ?_
+  rintro fs' b6 ⟨hfs, hσ⟩
+  refine (Fwd.pure _ _).mono ?_
+  rintro y b7 ⟨rfl, rfl⟩
+  exact ⟨by simp [Definition.erasePos, hds, hfs, hk, hparts.1, hparts.2.1, hparts.2.2.1], hσ⟩
+
+theorem fwd_parseScalarTypeExtension {dk : Kind} (hdk : DescKind dk) (d : Definition) (hk : d.kind = .scalar) (hok : DefOK d) (hdesc : d.desc = []) (hx : ExtendsSomething d)
+    (n : Nat) (a : AS) (σ' : Stream) (hs : Starts a.σ (DefKind.keyword d.kind :: printDefBodyK dk d) σ') (hfol : FolItem σ') :
+    Fwd (parseScalarTypeExtension n) a (fun y a' => y.erasePos = ({ d with builtIn := false } : Definition).erasePos ∧ a'.σ = σ') := by
+  obtain ⟨g1, g2, g3, g4, g5, g6, g7, g8⟩ := hfol
+  obtain ⟨hcd, hparts⟩ := hok
+  simp only [hk] at hparts
+  have hs : Starts a.σ ([tKw "scalar"] ++ ([tName d.name] ++ printDirectives d.dirs)) σ' := by
+    simpa [printDefBodyK, hk, DefKind.keyword] using hs
+  rw [Starts.append_iff] at hs
+  obtain ⟨σ1, h1, hs⟩ := hs
+  rw [Starts.append_iff] at hs
+  obtain ⟨σ2, h2, h4⟩ := hs
+  unfold parseScalarTypeExtension
+  refine Fwd.bind (fwd_keyword "scalar" (by simpa using h1)) ?_
+  rintro _ b1 hσb1
+  refine Fwd.bind (fwd_peekPos _) ?_
+  rintro pos b2 rfl
+  refine Fwd.bind (fwd_parseName d.name (by simpa [hσb1] using h2)) ?_
+  rintro nm b3 ⟨rfl, hσb3⟩
+  refine Fwd.bind (fwd_directives true d.dirs hcd.1 (fun _ => hcd.2) n b3 σ' (by rw [hσb3]; exact h4) g1 g2) ?_
+  rintro ds' b5 ⟨hds, hσ⟩
+  refine Fwd.ite_neg (by
+    intro hc
+    have e1 := length_of_map_eq hds
+    simp only [ExtendsSomething, hk] at hx
+    exact hx (List.eq_nil_of_length_eq_zero (by omega))) ?_
+  refine (Fwd.pure _ _).mono ?_
+  rintro y b7 ⟨rfl, rfl⟩
+  exact ⟨by simp [Definition.erasePos, hds, hk, hparts.1, hparts.2.1, hparts.2.2.1, hparts.2.2.2, hdesc], hσ⟩
+
+theorem fwd_parseObjectTypeExtension {dk : Kind} (hdk : DescKind dk) (d : Definition) (hk : d.kind = .object) (hok : DefOK d) (hdesc : d.desc = []) (hx : ExtendsSomething d)
+    (n : Nat) (a : AS) (σ' : Stream) (hs : Starts a.σ (DefKind.keyword d.kind :: printDefBodyK dk d) σ') (hfol : FolItem σ') :
+    Fwd (parseObjectTypeExtension n) a (fun y a' => y.erasePos = ({ d with builtIn := false } : Definition).erasePos ∧ a'.σ = σ') := by
+  obtain ⟨g1, g2, g3, g4, g5, g6, g7, g8⟩ := hfol
+  obtain ⟨hcd, hparts⟩ := hok
+  simp only [hk] at hparts
+  have hs : Starts a.σ ([tKw "type"] ++ ([tName d.name] ++ (printImplements d.interfaces ++ (printDirectives d.dirs ++
+      printBlock (printFieldDefK dk) d.fields)))) σ' := by simpa [printDefBodyK, hk, DefKind.keyword] using hs
+  rw [Starts.append_iff] at hs
+  obtain ⟨σ1, h1, hs⟩ := hs
+  rw [Starts.append_iff] at hs
+  obtain ⟨σ2, h2, hs⟩ := hs
+  rw [Starts.append_iff] at hs
+  obtain ⟨σ3, h3, hs⟩ := hs
+  rw [Starts.append_iff] at hs
+  obtain ⟨σ4, h4, h5⟩ := hs
+  have k5 := h5.firstKind
+  rw [firstKind_block] at k5
+  have k4 := h4.firstKind
+  rw [firstKind_directives] at k4
+  have hσ4 : σ4.head.kind ≠ .at ∧ σ4.head.kind ≠ .parenL ∧ σ4.head.kind ≠ .amp ∧ NoImplements σ4 := by
+    rw [k5]; split
+    · exact ⟨g1, g2, g4, by
+        have : σ4 = σ' := by
+          rename_i hnil; rw [hnil] at h5; simpa [printBlock, Starts.nil_iff] using h5
+        rw [this]; exact g8⟩
+    · exact ⟨by decide, by decide, by decide, noImplements_of_kind (by rw [k5]; simp [*])⟩
+  have hσ3 : σ3.head.kind ≠ .amp ∧ NoImplements σ3 := by
+    by_cases hd : d.dirs = []
+    · have : σ3 = σ4 := by rw [hd] at h4; simpa [printDirectives, Starts.nil_iff] using h4
+      rw [this]; exact ⟨hσ4.2.2.1, hσ4.2.2.2⟩
+    · rw [if_neg hd] at k4
+      exact ⟨by rw [k4]; decide, noImplements_of_kind (by rw [k4]; decide)⟩
+  unfold parseObjectTypeExtension
+  refine Fwd.bind (fwd_keyword "type" (by simpa using h1)) ?_
+  rintro _ b1 hσb1
+  refine Fwd.bind (fwd_peekPos _) ?_
+  rintro pos b2 rfl
+  refine Fwd.bind (fwd_parseName d.name (by simpa [hσb1] using h2)) ?_
+  rintro nm b3 ⟨rfl, hσb3⟩
+  refine Fwd.bind (fwd_implements d.interfaces n b3 σ3 (by rw [hσb3]; exact h3) hσ3.1 (fun _ => hσ3.2)) ?_
+  rintro ifs b4 ⟨rfl, hσb4⟩
+  refine Fwd.bind (fwd_directives true d.dirs hcd.1 (fun _ => hcd.2) n b4 σ4 (by rw [hσb4]; exact h4) hσ4.1 hσ4.2.1) ?_
+  rintro ds' b5 ⟨hds, hσb5⟩
+  refine Fwd.bind (fwd_fieldDefs hdk d.fields hparts.2.2 n b5 σ' (by rw [hσb5]; exact h5) (fun _ => g3)) ?_
+  rintro fs' b6 ⟨hfs, hσ⟩
+  refine Fwd.ite_neg (by
+    intro hc
+    have e1 := length_of_map_eq hds
+    have e2 := length_of_map_eq hfs
+    simp only [ExtendsSomething, hk] at hx
+    rcases hx with h | h | h
+    · exact h (List.eq_nil_of_length_eq_zero hc.1)
+    · exact h (List.eq_nil_of_length_eq_zero (by omega))
+    · exact h (List.eq_nil_of_length_eq_zero (by omega))) ?_
+  refine (Fwd.pure _ _).mono ?_
+  rintro y b7 ⟨rfl, rfl⟩
+  exact ⟨by simp [Definition.erasePos, hds, hfs, hk, hparts.1, hparts.2.1, hdesc], hσ⟩
+
+theorem fwd_parseInterfaceTypeExtension {dk : Kind} (hdk : DescKind dk) (d : Definition) (hk : d.kind = .interface) (hok : DefOK d) (hdesc : d.desc = []) (hx : ExtendsSomething d)
+    (n : Nat) (a : AS) (σ' : Stream) (hs : Starts a.σ (DefKind.keyword d.kind :: printDefBodyK dk d) σ') (hfol : FolItem σ') :
+    Fwd (parseInterfaceTypeExtension n) a (fun y a' => y.erasePos = ({ d with builtIn := false } : Definition).erasePos ∧ a'.σ = σ') := by
+  obtain ⟨g1, g2, g3, g4, g5, g6, g7, g8⟩ := hfol
+  obtain ⟨hcd, hparts⟩ := hok
+  simp only [hk] at hparts
+  have hs : Starts a.σ ([tKw "interface"] ++ ([tName d.name] ++ (printImplements d.interfaces ++ (printDirectives d.dirs ++
+      printBlock (printFieldDefK dk) d.fields)))) σ' := by simpa [printDefBodyK, hk, DefKind.keyword] using hs
+  rw [Starts.append_iff] at hs
+  obtain ⟨σ1, h1, hs⟩ := hs
+  rw [Starts.append_iff] at hs
+  obtain ⟨σ2, h2, hs⟩ := hs
+  rw [Starts.append_iff] at hs
+  obtain ⟨σ3, h3, hs⟩ := hs
+  rw [Starts.append_iff] at hs
+  obtain ⟨σ4, h4, h5⟩ := hs
+  have k5 := h5.firstKind
+  rw [firstKind_block] at k5
+  have k4 := h4.firstKind
+  rw [firstKind_directives] at k4
+  have hσ4 : σ4.head.kind ≠ .at ∧ σ4.head.kind ≠ .parenL ∧ σ4.head.kind ≠ .amp ∧ NoImplements σ4 := by
+    rw [k5]; split
+    · exact ⟨g1, g2, g4, by
+        have : σ4 = σ' := by
+          rename_i hnil; rw [hnil] at h5; simpa [printBlock, Starts.nil_iff] using h5
+        rw [this]; exact g8⟩
+    · exact ⟨by decide, by decide, by decide, noImplements_of_kind (by rw [k5]; simp [*])⟩
+  have hσ3 : σ3.head.kind ≠ .amp ∧ NoImplements σ3 := by
+    by_cases hd : d.dirs = []
+    · have : σ3 = σ4 := by rw [hd] at h4; simpa [printDirectives, Starts.nil_iff] using h4
+      rw [this]; exact ⟨hσ4.2.2.1, hσ4.2.2.2⟩
+    · rw [if_neg hd] at k4
+      exact ⟨by rw [k4]; decide, noImplements_of_kind (by rw [k4]; decide)⟩
+  unfold parseInterfaceTypeExtension
+  refine Fwd.bind (fwd_keyword "interface" (by simpa using h1)) ?_
+  rintro _ b1 hσb1
+  refine Fwd.bind (fwd_peekPos _) ?_
+  rintro pos b2 rfl
+  refine Fwd.bind (fwd_parseName d.name (by simpa [hσb1] using h2)) ?_
+  rintro nm b3 ⟨rfl, hσb3⟩
+  refine Fwd.bind (fwd_implements d.interfaces n b3 σ3 (by rw [hσb3]; exact h3) hσ3.1 (fun _ => hσ3.2)) ?_
+  rintro ifs b4 ⟨rfl, hσb4⟩
+  refine Fwd.bind (fwd_directives true d.dirs hcd.1 (fun _ => hcd.2) n b4 σ4 (by rw [hσb4]; exact h4) hσ4.1 hσ4.2.1) ?_
+  rintro ds' b5 ⟨hds, hσb5⟩
+  refine Fwd.bind (fwd_fieldDefs hdk d.fields hparts.2.2 n b5 σ' (by rw [hσb5]; exact h5) (fun _ => g3)) ?_
+  rintro fs' b6 ⟨hfs, hσ⟩
+  refine Fwd.ite_neg (by
+    intro hc
+    have e1 := length_of_map_eq hds
+    have e2 := length_of_map_eq hfs
+    simp only [ExtendsSomething, hk] at hx
+    rcases hx with h | h | h
+    · exact h (List.eq_nil_of_length_eq_zero hc.1)
+    · exact h (List.eq_nil_of_length_eq_zero (by omega))
+    · exact h (List.eq_nil_of_length_eq_zero (by omega))) ?_
+  refine (Fwd.pure _ _).mono ?_
+  rintro y b7 ⟨rfl, rfl⟩
+  exact ⟨by simp [Definition.erasePos, hds, hfs, hk, hparts.1, hparts.2.1, hdesc], hσ⟩
+
+theorem fwd_parseUnionTypeExtension {dk : Kind} (hdk : DescKind dk) (d : Definition) (hk : d.kind = .union) (hok : DefOK d) (hdesc : d.desc = []) (hx : ExtendsSomething d)
+    (n : Nat) (a : AS) (σ' : Stream) (hs : Starts a.σ (DefKind.keyword d.kind :: printDefBodyK dk d) σ') (hfol : FolItem σ') :
+    Fwd (parseUnionTypeExtension n) a (fun y a' => y.erasePos = ({ d with builtIn := false } : Definition).erasePos ∧ a'.σ = σ') := by
+  obtain ⟨g1, g2, g3, g4, g5, g6, g7, g8⟩ := hfol
+  obtain ⟨hcd, hparts⟩ := hok
+  simp only [hk] at hparts
+  have hs : Starts a.σ ([tKw "union"] ++ ([tName d.name] ++ (printDirectives d.dirs ++ printMembers d.types))) σ' := by
+    simpa [printDefBodyK, hk, DefKind.keyword] using hs
+  rw [Starts.append_iff] at hs
+  obtain ⟨σ1, h1, hs⟩ := hs
+  rw [Starts.append_iff] at hs
+  obtain ⟨σ2, h2, hs⟩ := hs
+  rw [Starts.append_iff] at hs
+  obtain ⟨σ4, h4, h5⟩ := hs
+  have k5 := h5.firstKind
+  rw [firstKind_members] at k5
+  have hσ4 : σ4.head.kind ≠ .at ∧ σ4.head.kind ≠ .parenL := by
+    rw [k5]; split
+    · exact ⟨g1, g2⟩
+    · exact ⟨by decide, by decide⟩
+  unfold parseUnionTypeExtension
+  refine Fwd.bind (fwd_keyword "union" (by simpa using h1)) ?_
+  rintro _ b1 hσb1
+  refine Fwd.bind (fwd_peekPos _) ?_
+  rintro pos b2 rfl
+  refine Fwd.bind (fwd_parseName d.name (by simpa [hσb1] using h2)) ?_
+  rintro nm b3 ⟨rfl, hσb3⟩
+  refine Fwd.bind (fwd_directives true d.dirs hcd.1 (fun _ => hcd.2) n b3 σ4 (by rw [hσb3]; exact h4) hσ4.1 hσ4.2) ?_
+  rintro ds' b5 ⟨hds, hσb5⟩
+  refine Fwd.bind (fwd_unionMembers d.types n b5 σ' (by rw [hσb5]; exact h5) g6 (fun _ => g5)) ?_
+  rintro fs' b6 ⟨hfs, hσ⟩
+  refine Fwd.ite_neg (by
+    intro hc
+    have e1 := length_of_map_eq hds
+    have e2 := congrArg List.length hfs
+    simp only [ExtendsSomething, hk] at hx
+    rcases hx with h | h
+    · exact h (List.eq_nil_of_length_eq_zero (by omega))
+    · exact h (List.eq_nil_of_length_eq_zero (by omega))) ?_
+  refine (Fwd.pure _ _).mono ?_
+  rintro y b7 ⟨rfl, rfl⟩
+  exact ⟨by simp [Definition.erasePos, hds, hfs, hk, hparts.1, hparts.2.1, hparts.2.2, hdesc], hσ⟩
+
+theorem fwd_parseEnumTypeExtension {dk : Kind} (hdk : DescKind dk) (d : Definition) (hk : d.kind = .enum) (hok : DefOK d) (hdesc : d.desc = []) (hx : ExtendsSomething d)
+    (n : Nat) (a : AS) (σ' : Stream) (hs : Starts a.σ (DefKind.keyword d.kind :: printDefBodyK dk d) σ') (hfol : FolItem σ') :
+    Fwd (parseEnumTypeExtension n) a (fun y a' => y.erasePos = ({ d with builtIn := false } : Definition).erasePos ∧ a'.σ = σ') := by
+  obtain ⟨g1, g2, g3, g4, g5, g6, g7, g8⟩ := hfol
+  obtain ⟨hcd, hparts⟩ := hok
+  simp only [hk] at hparts
+  have hs : Starts a.σ ([tKw "enum"] ++ ([tName d.name] ++ (printDirectives d.dirs ++ printBlock (printEnumValK dk) d.enumValues))) σ' := by
+    simpa [printDefBodyK, hk, DefKind.keyword] using hs
+  rw [Starts.append_iff] at hs
+  obtain ⟨σ1, h1, hs⟩ := hs
+  rw [Starts.append_iff] at hs
+  obtain ⟨σ2, h2, hs⟩ := hs
+  rw [Starts.append_iff] at hs
+  obtain ⟨σ4, h4, h5⟩ := hs
+  have k5 := h5.firstKind
+  rw [firstKind_block] at k5
+  have hσ4 : σ4.head.kind ≠ .at ∧ σ4.head.kind ≠ .parenL := by
+    rw [k5]; split
+    · exact ⟨g1, g2⟩
+    · exact ⟨by decide, by decide⟩
+  unfold parseEnumTypeExtension
+  refine Fwd.bind (fwd_keyword "enum" (by simpa using h1)) ?_
+  rintro _ b1 hσb1
+  refine Fwd.bind (fwd_peekPos _) ?_
+  rintro pos b2 rfl
+  refine Fwd.bind (fwd_parseName d.name (by simpa [hσb1] using h2)) ?_
+  rintro nm b3 ⟨rfl, hσb3⟩
+  refine Fwd.bind (fwd_directives true d.dirs hcd.1 (fun _ => hcd.2) n b3 σ4 (by rw [hσb3]; exact h4) hσ4.1 hσ4.2) ?_
+  rintro ds' b5 ⟨hds, hσb5⟩
+  refine Fwd.bind (fwd_enumVals hdk d.enumValues hparts.2.2.2 n b5 σ' (by rw [hσb5]; exact h5) (fun _ => g3)) ?_
+  rintro fs' b6 ⟨hfs, hσ⟩
+  refine Fwd.ite_neg (by
+    intro hc
+    have e1 := length_of_map_eq hds
+    have e2 := length_of_map_eq hfs
+    simp only [ExtendsSomething, hk] at hx
+    rcases hx with h | h
+    · exact h (List.eq_nil_of_length_eq_zero (by omega))
+    · exact h (List.eq_nil_of_length_eq_zero (by omega))) ?_
+  refine (Fwd.pure _ _).mono ?_
+  rintro y b7 ⟨rfl, rfl⟩
+  exact ⟨by simp [Definition.erasePos, hds, hfs, hk, hparts.1, hparts.2.1, hparts.2.2.1, hdesc], hσ⟩
+
+theorem fwd_parseInputObjectTypeExtension {dk : Kind} (hdk : DescKind dk) (d : Definition) (hk : d.kind = .inputObject) (hok : DefOK d) (hdesc : d.desc = []) (hx : ExtendsSomething d)
+    (n : Nat) (a : AS) (σ' : Stream) (hs : Starts a.σ (DefKind.keyword d.kind :: printDefBodyK dk d) σ') (hfol : FolItem σ') :
+    Fwd (parseInputObjectTypeExtension n) a (fun y a' => y.erasePos = ({ d with builtIn := false } : Definition).erasePos ∧ a'.σ = σ') := by
+  obtain ⟨g1, g2, g3, g4, g5, g6, g7, g8⟩ := hfol
+  obtain ⟨hcd, hparts⟩ := hok
+  simp only [hk] at hparts
+  have hs : Starts a.σ ([tKw "input"] ++ ([tName d.name] ++ (printDirectives d.dirs ++ printBlock (printInputFieldK dk) d.fields))) σ' := by
+    simpa [printDefBodyK, hk, DefKind.keyword] using hs
+  rw [Starts.append_iff] at hs
+  obtain ⟨σ1, h1, hs⟩ := hs
+  rw [Starts.append_iff] at hs
+  obtain ⟨σ2, h2, hs⟩ := hs
+  rw [Starts.append_iff] at hs
+  obtain ⟨σ4, h4, h5⟩ := hs
+  have k5 := h5.firstKind
+  rw [firstKind_block] at k5
+  have hσ4 : σ4.head.kind ≠ .at ∧ σ4.head.kind ≠ .parenL := by
+    rw [k5]; split
+    · exact ⟨g1, g2⟩
+    · exact ⟨by decide, by decide⟩
+  unfold parseInputObjectTypeExtension
+  refine Fwd.bind (fwd_keyword "input" (by simpa using h1)) ?_
+  rintro _ b1 hσb1
+  refine Fwd.bind (fwd_peekPos _) ?_
+  rintro pos b2 rfl
+  refine Fwd.bind (fwd_parseName d.name (by simpa [hσb1] using h2)) ?_
+  rintro nm b3 ⟨rfl, hσb3⟩
+  refine Fwd.bind (fwd_directives true d.dirs hcd.1 (fun _ => hcd.2) n b3 σ4 (by rw [hσb3]; exact h4) hσ4.1 hσ4.2) ?_
+  rintro ds' b5 ⟨hds, hσb5⟩
+  refine Fwd.bind (fwd_inputFields hdk d.fields hparts.2.2.2 n b5 σ' (by rw [hσb5]; exact h5) (fun _ => g3)) ?_
+  rintro fs' b6 ⟨hfs, hσ⟩
+  refine Fwd.ite_neg (by
+    intro hc
+    have e1 := length_of_map_eq hds
+    have e2 := length_of_map_eq hfs
+    simp only [ExtendsSomething, hk] at hx
+    rcases hx with h | h
+    · exact h (List.eq_nil_of_length_eq_zero (by omega))
+    · exact h (List.eq_nil_of_length_eq_zero (by omega))) ?_
+  refine (Fwd.pure _ _).mono ?_
+  rintro y b7 ⟨rfl, rfl⟩
+  exact ⟨by simp [Definition.erasePos, hds, hfs, hk, hparts.1, hparts.2.1, hparts.2.2.1, hdesc], hσ⟩
+
 end Gql.Parser
